@@ -754,3 +754,29 @@ Proof.
     apply Hm3 in Hin3; [|assumption]. unfold m2 in Hin3. apply unlink_in in Hin3; tauto.
   - inversion H; subst. apply unlink_in in Hin; tauto.
 Qed.
+
+(* moving c to the needs-recalc list touches the _curList of c and of (some) ancestors of p only *)
+Lemma resched_R_cur_frame f : forall m p c m',
+  parent (m c) = Some p -> p <> c -> (forall x, parent (m x) <> Some x) ->
+  resched f m p c LRecalc = Some m' ->
+  forall z, z <> c -> ~ desc m z p -> cur (m' z) = cur (m z).
+Proof.
+  induction f as [|f IH]; intros m p c m' Hpar Hpc Hns H z Hzc Hzp; [discriminate|].
+  rewrite resched_unfold in H.
+  destruct (lst_eqb LRecalc (cur (m c)) && negb (lst_eqb (cur (m c)) LSched)).
+  { inversion H; subst. reflexivity. }
+  cbv zeta in H. set (m2 := unlink m p c LRecalc) in *.
+  assert (Hzp' : z <> p) by (intro; subst; apply Hzp; constructor).
+  assert (Hm3 : exists m3, m' = upd m3 p (set_lr (m3 p) (c :: lr (m3 p))) /\ cur (m3 z) = cur (m2 z)).
+  { destruct (parent (m2 p)) as [g|] eqn:Hg.
+    - destruct (resched f m2 g p LRecalc) as [m3|] eqn:Hr; [|discriminate]. inversion H; subst m'.
+      exists m3. split; [reflexivity|].
+      assert (Hg' : parent (m p) = Some g) by (unfold m2 in Hg; now rewrite unlink_parent in Hg).
+      apply (IH m2 g p m3 Hg); auto.
+      + intro; subst g. now apply (Hns p).
+      + intro x. unfold m2. rewrite unlink_parent by assumption. apply Hns.
+      + intro Hd. apply Hzp. eapply desc_child; [|exact Hg'].
+        apply (desc_parent_ext m2 m); [|assumption]. intro y. unfold m2. symmetry. now apply unlink_parent.
+    - inversion H; subst m'. exists m2. auto. }
+  destruct Hm3 as (m3 & -> & Hc3). rewrite upd_other by assumption. rewrite Hc3. unfold m2. now apply unlink_cur_o.
+Qed.
